@@ -34,6 +34,15 @@ CHECKS["C03"] = ("DESIGN §4 C03",
     "all histories up to the depth bound run on the real assembly code with its cached CSR reduction map; the oracle is an independent triple loop over the element arrays the simulation itself returns",
     "trusted: the documented dof convention node*dof_n+component; numpy; tolerance 1e-13")
 
+CHECKS["C11"] = ("DESIGN §4 C11",
+    "exhaustive enumeration of law class x dimension x parameter set x material axes x notation configurations, plus explicit-state exploration of all sequences of <= 2 parameter assignments interleaved with reads (differential against a freshly constructed law)",
+    "every configuration of the stated alphabets is evaluated on the real law classes and change-of-basis helpers and compared with an independent fourth-order-tensor reference (own Kelvin-Mandel conversion, own rotation)",
+    "trusted: numpy; own tensor <-> Kelvin-Mandel conversion; tolerance 1e-10..1e-12 relative")
+CHECKS["C14"] = ("DESIGN §4 C14",
+    "explicit-state exploration, unmerged: every sequence of public mutating operations (depth 2 with an observation after every operation, depth 3 with one final observation in quick; depth 3 thorough) for 7 simulation scenarios, and all ordered pairs of parameter assignments on a model shared by two simulations; differential oracle = freshly built simulation in the final configuration",
+    "all operation histories up to the depth bound are executed on the real objects with primed caches; no hand-written expected values: the live object must agree with a new mesh + new model + new simulation carrying the same configuration and state",
+    "trusted: the harness's record of parameters and conditions; the live coordinates and state are read through public getters; phase-field compares the displacement system only")
+
 PENDING_REASON = "not claimed yet: the bounded-exhaustive check for this property is designed (DESIGN.md §4) but not built in the committed tree"
 
 
